@@ -2,7 +2,7 @@
    opcodes.go:init() (how opsByOpcode is built from OpSpecs), and the finite, executable
    obligations on the tables (decided by vm_compute in proofs/AvmTableProofs.v).  No proofs. *)
 From Coq Require Import List NArith ZArith String Bool.
-From Verif.model Require Import AvmTypes AvmFrame.
+From Verif.model Require Import AvmTypes AvmFrame AvmFieldSpec.
 From Verif.gen Require Import AvmTables.
 Import ListNotations.
 
@@ -231,3 +231,94 @@ Definition src_lookup (v opcode sub : N) : option opspec :=
                     | None => Some s
                     end
                else acc) src_specs None.
+
+(* ------------------------------------------------------------------ independent specifications *)
+(* (a) the frozen, hand-reviewed field specification (AvmFieldSpec.v): the run-time field tables
+   agree with it field by field (encoding, version, mode), and nothing of it disappeared *)
+Definition spec_lookup (g n : string) : option (string * string * N * N * bool) :=
+  find (fun e : string * string * N * N * bool =>
+          let '(gg, nn, _, _, _) := e in String.eqb gg g && String.eqb nn n) field_spec.
+
+Definition field_spec_agrees : bool :=
+  forallb (fun g =>
+     forallb (fun fs =>
+        match spec_lookup (fg_name g) (fs_name fs) with
+        | Some (_, _, enc, ver, app_only) =>
+            N.eqb enc (fs_field fs) && N.eqb ver (fs_version fs)
+            && N.eqb (fs_modes fs) (if app_only then ModeApp else 3)
+        | None => false
+        end) (fg_fields g)) field_groups
+  && forallb (fun e : string * string * N * N * bool =>
+                let '(gg, nn, _, _, _) := e in
+                existsb (fun g => String.eqb (fg_name g) gg
+                                  && existsb (fun fs => String.eqb (fs_name fs) nn) (fg_fields g)) field_groups)
+             field_spec.
+
+(* (b) the repository's second source, langspec_v<K>.json *)
+Definition entry_at (v opcode sub : N) : opspec :=
+  let '(e, subs) := gen_tbl v opcode in
+  if N.eqb sub 0 then e else nth (N.to_nat sub) subs zero_spec.
+
+(* OpcodesByVersion reports the lowest version any OpSpecs entry of the (opcode, sub-opcode) has *)
+Definition min_src_version (opcode sub : N) : N :=
+  fold_left (fun acc s => if N.eqb (os_opcode s) opcode && N.eqb (os_sub s) sub
+                          then N.min acc (os_version s) else acc) src_specs 1000%N.
+
+Definition dispatched_count (v : N) : nat :=
+  fold_left (fun n (e : tentry) =>
+               let '(_, (i, subs)) := e in
+               n + (if os_hasop (pool_get i) then 1 else 0)
+               + List.length (filter (fun j => os_hasop (pool_get j)) subs))%nat
+            (version_table v) 0%nat.
+
+Definition langspec_ops_agree : bool :=
+  forallb (fun kv : N * list (N * N * string * N * N) =>
+     let '(k, ops) := kv in
+     forallb (fun o : N * N * string * N * N =>
+                let '(opc, sub, name, intro, modes) := o in
+                let s := entry_at k opc sub in
+                os_hasop s && String.eqb (os_name s) name && N.eqb (os_modes s) modes
+                && N.eqb (min_src_version opc sub) intro) ops
+     && Nat.eqb (List.length ops) (dispatched_count k)) langspec_ops
+  && negb (match langspec_ops with [] => true | _ => false end).
+
+(* the documented argument enum of an op = the fields of its run-time group that the newest
+   documented version and the op's modes admit, with the same encoding, version and mode *)
+Definition doc_fields (k : N) (s : opspec) : list (string * N * N * N) :=
+  match find (fun im => negb (N.eqb (im_group im) 0)) (os_imms s) with
+  | None => []
+  | Some im =>
+      match runtime_group s im with
+      | None => []
+      | Some g =>
+          flat_map (fun fs =>
+                      let m := N.land (os_modes s) (fs_modes fs) in
+                      if N.leb (fs_version fs) k && negb (N.eqb m 0)
+                      then [(fs_name fs, fs_field fs, (if N.eqb m (os_modes s) then 0%N else m), fs_version fs)]
+                      else []) (fg_fields g)
+      end
+  end.
+
+Definition doc_field_eqb (a b : string * N * N * N) : bool :=
+  let '(n1, e1, m1, v1) := a in let '(n2, e2, m2, v2) := b in
+  String.eqb n1 n2 && N.eqb e1 e2 && N.eqb m1 m2 && N.eqb v1 v2.
+
+Definition langspec_fields_agree : bool :=
+  forallb (fun e : N * N * list (string * N * N * N) =>
+             let '(opc, sub, fl) := e in
+             list_eqb doc_field_eqb fl (doc_fields langspec_latest (entry_at langspec_latest opc sub)))
+          langspec_fields
+  (* and every dispatched op of that version with a field immediate is documented with its fields *)
+  && forallb (fun e : tentry =>
+                let '(opc, (i, subs)) := e in
+                forallb (fun sj : N * N =>
+                           let s := pool_get (snd sj) in
+                           match doc_fields langspec_latest s with
+                           | [] => true
+                           | _ => implb (os_hasop s)
+                                        (existsb (fun d : N * N * list (string * N * N * N) =>
+                                                    let '(o2, s2, _) := d in N.eqb o2 opc && N.eqb s2 (fst sj))
+                                                 langspec_fields)
+                           end)
+                        ((0%N, i) :: combine (map N.of_nat (seq 0 (List.length subs))) subs))
+             (version_table langspec_latest).
